@@ -770,9 +770,18 @@ impl SessionInterrupt {
     /// Interrupt whatever the session is running or has queued. Does
     /// nothing when the session is idle.
     fn interrupt(&self) {
+        #[cfg(wilfred_garden_verif)]
+        let mut verif_guard = verif::lock();
         let pending = self.pending.lock().unwrap();
         if *pending > 0 {
             self.flag.store(true, Ordering::SeqCst);
+        }
+        #[cfg(wilfred_garden_verif)]
+        if !verif::on_watchdog() {
+            verif::ev(
+                &mut verif_guard,
+                if *pending > 0 { "rd flag" } else { "rd ignore" },
+            );
         }
     }
 
@@ -780,11 +789,15 @@ impl SessionInterrupt {
     /// request. An interrupt that arrived too late to stop anything
     /// must not hit the next request.
     fn finish_request(&self) {
+        #[cfg(wilfred_garden_verif)]
+        let mut verif_guard = verif::lock();
         let mut pending = self.pending.lock().unwrap();
         *pending = pending.saturating_sub(1);
         if *pending == 0 {
             self.flag.store(false, Ordering::SeqCst);
         }
+        #[cfg(wilfred_garden_verif)]
+        verif::ev(&mut verif_guard, &format!("w {} done", verif::sid()));
     }
 }
 
@@ -805,11 +818,15 @@ impl SessionState {
     fn enqueue(&self, req: SessionRequest) -> bool {
         // Holding the lock across the send keeps the worker from
         // finishing the request before it has been counted.
+        #[cfg(wilfred_garden_verif)]
+        let mut verif_guard = verif::lock();
         let mut pending = self.interrupt.pending.lock().unwrap();
         if self.request_tx.send(req).is_err() {
             return false;
         }
         *pending += 1;
+        #[cfg(wilfred_garden_verif)]
+        verif::ev(&mut verif_guard, "rd enq");
         true
     }
 
@@ -1893,6 +1910,9 @@ pub(crate) mod verif {
                 let seed: u64 = seed.parse().unwrap_or(1);
                 RNG.store(seed.wrapping_mul(0x9E37_79B9_7F4A_7C15) | 1, Ordering::SeqCst);
             }
+            let mut out = out;
+            // which interrupt protocol this binary implements (see coq/Nrepl.v)
+            let _ = out.write_all(b"0 proto 2\n");
             Some(Mutex::new(Log { seq: 0, out }))
         })
         .as_ref()
@@ -1958,6 +1978,11 @@ pub(crate) mod verif {
             .map(parse_session)
             .unwrap_or(-1);
         SID.with(|s| s.set(sid));
+    }
+
+    /// True on the SIGINT watchdog thread (its stores are not logged).
+    pub(crate) fn on_watchdog() -> bool {
+        std::thread::current().name() == Some("nrepl-sigint-watchdog")
     }
 
     pub(crate) fn sid() -> i64 {
